@@ -20,7 +20,7 @@ func c17(tier string) []*explore.Scenario {
 	if tier == "thorough" {
 		bound = 2
 	}
-	out = append(out, c17Spoof(), c17Hostile())
+	out = append(out, c17Spoof(), c17Hostile(), c17Product("C17"))
 	for _, role := range []string{"none", "stuck-writer", "stuck-writer-flood", "failing-reader", "failing-writer", "failing-writer-live-traffic", "failing-both", "dial-error", "slow-dial"} {
 		out = append(out, c17BadPeer(role, bound))
 	}
@@ -707,6 +707,80 @@ func c17OpSeq(prop string, first, maxLen int) *explore.Scenario {
 			if ts := vsched.Threads(); len(ts) > 0 {
 				vsched.Fail(fam+"|goroutine-leak", "after%s and cancelling the proxy: goroutines remain: %s", seq, threadList())
 			}
+		},
+	}
+}
+
+// c17Product: the product of the routing fields a sender controls - source
+// {own name, another attached peer's, unknown, empty} x destination {attached
+// b, dialable c, the sender itself, unknown, empty} x return route {absent,
+// empty, [b], [c], [unknown], [x b]} x route record {absent, empty, [edge]} =
+// 360 envelopes from peer a, each followed by good traffic. Reference model: an
+// envelope is forwarded iff its source is the sender's own name; then it goes,
+// exactly once, to the last hop of a non-empty return route, else to its
+// destination (dialling c on demand), with the proxy's name appended to the
+// route record; nothing else is delivered; nothing crashes.
+func c17Product(prop string) *explore.Scenario {
+	fam := prop + "/routing-product"
+	return &explore.Scenario{
+		Name: prop + "/routing-product/360-header-shapes", Family: fam, Prop: prop, Bound: 0,
+		Run: func() {
+			t, peers := c17Env(16)
+			pc := env.NewPipe(t.Tap, env.PipeOpts{Name: "c", Cap: 16})
+			t.Extra["c"] = pc
+			t.DialErr["nowhere"] = errors.New("no route")
+			t.DialErr[""] = errors.New("no route")
+			t.DialErr["x"] = errors.New("no route")
+			vsched.Settle()
+			srcs := []string{"a", "b", "mallory", ""}
+			dsts := []string{"b", "c", "a", "nowhere", ""}
+			nexts := [][]string{nil, {}, {"b"}, {"c"}, {"nowhere"}, {"x", "b"}}
+			recs := [][]string{nil, {}, {"edge"}}
+			si, di, ni, ri := vsched.Choose(len(srcs)), vsched.Choose(len(dsts)), vsched.Choose(len(nexts)), vsched.Choose(len(recs))
+			rpc := c17Msg(1, srcs[si], dsts[di])
+			rpc.Header.ProxyNext = nexts[ni]
+			rpc.Header.ProxyRecord = recs[ri]
+			peers["a"].A.Inject(rpc)
+			vsched.Quiesce()
+			peers["a"].A.Inject(c17Msg(50, "a", "b"))
+			peers["b"].A.Inject(c17Msg(51, "b", "a"))
+			vsched.Quiesce()
+			want := ""
+			if srcs[si] == "a" {
+				want = dsts[di]
+				if len(nexts[ni]) > 0 {
+					want = nexts[ni][len(nexts[ni])-1]
+				}
+				if want != "a" && want != "b" && want != "c" {
+					want = "" // cannot be reached
+				}
+			}
+			desc := fmt.Sprintf("source=%q destination=%q return-route=%v record=%v", srcs[si], dsts[di], nexts[ni], recs[ri])
+			for _, peer := range []string{"a", "b", "c"} {
+				n := 0
+				var rec []string
+				for _, e := range t.Tap.Events {
+					if e.Wire == peer && e.Rpc.GetId() == 1 && ((peer == "c" && e.Dir == "a2b") || (peer != "c" && e.Dir == "b2a")) {
+						n++
+						rec = e.Rpc.GetHeader().GetProxyRecord()
+					}
+				}
+				switch {
+				case peer == want && n != 1:
+					vsched.Fail(fam+"|not-delivered", "envelope from a with %s: delivered to %s %d times, want once", desc, peer, n)
+				case peer != want && n != 0:
+					vsched.Fail(fam+"|misdelivered", "envelope from a with %s: delivered to %s %d times (expected destination: %q)", desc, peer, n, want)
+				case peer == want:
+					wantRec := append(append([]string{}, recs[ri]...), "proxy")
+					if fmt.Sprint(rec) != fmt.Sprint(wantRec) {
+						vsched.Fail(fam+"|route-record", "envelope from a with %s: arrived with route record %v, want %v", desc, rec, wantRec)
+					}
+				}
+			}
+			if delivered(t, "b", 50) != 1 || delivered(t, "a", 51) != 1 {
+				vsched.Fail(fam+"|stopped-forwarding", "after an envelope with %s the proxy no longer forwards good traffic", desc)
+			}
+			vsched.Obs("%s -> %q", desc, want)
 		},
 	}
 }
